@@ -56,10 +56,31 @@ impl LspProject {
                     .collect());
             }
 
+            // The conversion from a token produces the token's absolute line and column.
+            // The protocol encodes each token relative to the previous one: the line as
+            // a difference, and the start character as a difference when on the same line.
+            let mut prev_line: u32 = 0;
+            let mut prev_start: u32 = 0;
             return Ok(result
                 .0
                 .into_iter()
                 .filter_map(|tok| LspTokenType(tok).into())
+                .map(|tok: SemanticToken| {
+                    let line = tok.delta_line;
+                    let start = tok.delta_start;
+                    let relative = SemanticToken {
+                        delta_line: line.saturating_sub(prev_line),
+                        delta_start: if line == prev_line {
+                            start.saturating_sub(prev_start)
+                        } else {
+                            start
+                        },
+                        ..tok
+                    };
+                    prev_line = line;
+                    prev_start = start;
+                    relative
+                })
                 .collect());
         } else {
             error!("URL must be convertible to a file path {}", url);
